@@ -3,9 +3,13 @@
 //! Fault enumeration on the real `RocksDBWithMerkleTreeSubstateStore`: every history of <= L committed
 //! batches from a 10-batch alphabet, pruning on and off, followed by one victim batch. The victim is
 //! first committed un-faulted while the source hook counts its physical writes W; then, for every
-//! k in 1..=W, the history is rebuilt in a fresh directory and the commit is stopped right before its
-//! k-th physical write (hook panics -> unwind -> store dropped -> directory reopened with `standard()`):
-//! every prefix of the commit's write sequence.
+//! k in 1..=W, the pre-commit state is re-established and the commit is stopped right before its k-th
+//! physical write (hook panics -> unwind -> store dropped -> directory reopened): every prefix of the
+//! commit's write sequence. Opening RocksDB costs 0.2 s and more here, so (a) experiments are chained on
+//! long-lived directories instead of each getting a fresh one, (b) the real close + reopen is performed
+//! for the shortest histories (see `real_reopen`) and for every finding, while the other stops are judged
+//! through the surviving handle (the store struct holds nothing but that handle). A finding is re-run on
+//! a fresh directory (prefix committed on an empty store, reopened with `standard()`) for the replay case.
 //! Oracle on the reopened store: (version, substates) is the pre-commit or the post-commit pair, the
 //! recorded root is the independent commitment (refmerkle) of the substates held, and the tree read at
 //! the recorded version lists exactly the hashes of those substates. Unreachable leftover tree nodes are
@@ -61,6 +65,8 @@ struct Case {
     pruning: bool,
     prefix: Vec<Commit>,
     victim: Commit,
+    /// also close and reopen the directory after every stop (always done when confirming a finding)
+    real_reopen: bool,
 }
 
 impl Case {
@@ -82,25 +88,97 @@ impl Drop for DirGuard {
 }
 
 static DIR_COUNTER: AtomicU64 = AtomicU64::new(0);
+static OPENS: AtomicU64 = AtomicU64::new(0);
+static SESSIONS_DISCARDED: AtomicU64 = AtomicU64::new(0);
+static REOPENED: AtomicU64 = AtomicU64::new(0);
 
 fn open(dir: &PathBuf, pruning: bool) -> RocksDBWithMerkleTreeSubstateStore {
+    OPENS.fetch_add(1, Ordering::Relaxed);
+    if pruning {
+        // the default configuration
+        return RocksDBWithMerkleTreeSubstateStore::standard(dir.clone());
+    }
     let mut options = Options::default();
     options.create_if_missing(true);
     options.create_missing_column_families(true);
-    RocksDBWithMerkleTreeSubstateStore::with_options(&options, dir.clone(), pruning)
+    RocksDBWithMerkleTreeSubstateStore::with_options(&options, dir.clone(), false)
 }
 
-/// Fresh store holding the committed prefix.
-fn build(ctx: &Ctx, case: &Case) -> (RocksDBWithMerkleTreeSubstateStore, DirGuard) {
-    let n = DIR_COUNTER.fetch_add(1, Ordering::Relaxed);
-    let dir = ctx.scratch_dir(&format!("d{n}"));
-    let mut store = open(&dir, case.pruning);
-    for c in &case.prefix {
-        store.commit(&c.to_database_updates());
+/// One directory that lives through many experiments: its store receives one long history of commits,
+/// some of them interrupted, and is reopened after every interruption (opening a RocksDB directory costs
+/// ~0.2 s here, creating a fresh one more, so experiments are chained instead of each getting a new
+/// directory; findings are re-run on a fresh directory).
+struct Session {
+    store: Option<RocksDBWithMerkleTreeSubstateStore>,
+    pruning: bool,
+    model: RefDb,
+    trace: Vec<Value>,
+    dir: DirGuard,
+}
+
+impl Session {
+    fn new(ctx: &Ctx, pruning: bool) -> Session {
+        let n = DIR_COUNTER.fetch_add(1, Ordering::Relaxed);
+        let dir = ctx.scratch_dir(&format!("d{n}"));
+        let store = open(&dir, pruning);
+        verif_hooks::disarm();
+        let _ = verif_hooks::take_seen();
+        Session { store: Some(store), pruning, model: RefDb::default(), trace: vec![], dir: DirGuard(dir) }
     }
-    verif_hooks::disarm();
-    let _ = verif_hooks::take_seen();
-    (store, DirGuard(dir))
+    fn store(&self) -> &RocksDBWithMerkleTreeSubstateStore {
+        self.store.as_ref().unwrap()
+    }
+    /// un-faulted commit
+    fn commit(&mut self, c: &Commit) {
+        self.store.as_mut().unwrap().commit(&c.to_database_updates());
+        self.model.apply(c);
+        self.trace.push(json!({"commit": c.to_json()}));
+    }
+    /// Bring the store to the state "prefix committed on an empty store" (content-wise).
+    fn position(&mut self, prefix: &[Commit], prefix_model: &RefDb) {
+        if &self.model == prefix_model {
+            return;
+        }
+        if !self.model.parts.is_empty() {
+            let wipe = Commit(self.model.parts.keys().map(|p| Atom::new(&p.0, p.1, PU::Reset(vec![]))).collect());
+            self.commit(&wipe);
+        }
+        for c in prefix {
+            self.commit(c);
+        }
+        if &self.model != prefix_model {
+            mc_core::machinery_error("C19: positioning did not reach the prefix content (harness bug)");
+        }
+    }
+    /// After a finding the directory holds substates and a tree that disagree. Make it usable again
+    /// through the public API only: reset every partition known to the substates, to the tree at the
+    /// recorded version, or to the model. Returns false if that did not give a consistent empty store.
+    fn repair(&mut self) -> bool {
+        let store = self.store.as_ref().unwrap();
+        let mut parts: Vec<PKey> = real_partition_keys(store);
+        let v = store.get_current_version();
+        match mc_core::catch(|| listing_of(store, v)) {
+            Ok(l) => parts.extend(l.keys().cloned()),
+            Err(_) => return false,
+        }
+        parts.extend(self.model.parts.keys().cloned());
+        parts.sort();
+        parts.dedup();
+        let wipe = Commit(parts.iter().map(|p| Atom::new(&p.0, p.1, PU::Reset(vec![]))).collect());
+        if mc_core::catch(|| self.store.as_mut().unwrap().commit(&wipe.to_database_updates())).is_err() {
+            return false;
+        }
+        self.trace.push(json!({"repair_commit": wipe.to_json()}));
+        self.model = RefDb::default();
+        let store = self.store.as_ref().unwrap();
+        let r = read_back(store);
+        r.substates.parts.is_empty() && r.root == refmerkle::ZERO && matches!(mc_core::catch(|| listing_of(store, r.version)), Ok(l) if l.is_empty())
+    }
+    /// "The process stops": drop the handle, reopen the directory.
+    fn reopen(&mut self) {
+        self.store = None;
+        self.store = Some(open(&self.dir.0, self.pruning));
+    }
 }
 
 struct Recovered {
@@ -145,94 +223,186 @@ fn judge(store: &RocksDBWithMerkleTreeSubstateStore, pre: &(u64, RefDb), post: &
     };
     let want_root = refmerkle::state_root(&r.substates);
     if r.root != want_root {
-        return Err(("root-does-not-describe-substates".into(), format!("recorded root {} but the commitment of the substates held is {}", mc_core::hex(&r.root.0), mc_core::hex(&want_root.0))));
+        return Err(("root-does-not-describe-substates".into(), format!("recovered the {which} but the recorded root {} is not the commitment {} of the substates held", mc_core::hex(&r.root.0), mc_core::hex(&want_root.0))));
     }
     let want = refmerkle::substate_hashes(&r.substates);
     match mc_core::catch(|| listing_of(store, r.version)) {
         Ok(l) if l == want => Ok(which),
-        Ok(l) => Err(("tree-does-not-describe-substates".into(), format!("tree at recorded version {} lists {} but the store holds {}", r.version, show_listing(&l), show_listing(&want)))),
-        Err(p) => Err(("tree-unreadable".into(), format!("reading the tree at recorded version {} panicked: {p}", r.version))),
+        Ok(l) => Err(("tree-does-not-describe-substates".into(), format!("recovered the {which} but the tree at recorded version {} lists {} while the store holds {}", r.version, show_listing(&l), show_listing(&want)))),
+        Err(p) => Err(("tree-unreadable".into(), format!("recovered the {which} but reading the tree at recorded version {} panicked: {p}", r.version))),
     }
+}
+
+enum Attempt {
+    /// stopped right before the k-th physical write, which carries this label
+    Stopped(&'static str),
+    /// the commit performed fewer than k physical writes and completed (their number)
+    Completed(usize),
+}
+
+/// Commit `victim` with the k-th physical write armed.
+fn attempt_commit(store: &mut RocksDBWithMerkleTreeSubstateStore, victim: &DatabaseUpdates, k: usize) -> Attempt {
+    let _ = verif_hooks::take_seen();
+    verif_hooks::arm(k as u64);
+    let r = mc_core::catch(|| store.commit(victim));
+    verif_hooks::disarm();
+    let seen = verif_hooks::take_seen();
+    match r {
+        Err(p) if p.starts_with(verif_hooks::CRASH_MARKER) => {
+            if seen.len() != k {
+                mc_core::machinery_error("C19: crash point fired at the wrong write");
+            }
+            Attempt::Stopped(seen[k - 1])
+        }
+        Err(p) => mc_core::machinery_error(&format!("C19: commit panicked for another reason than the crash point: {p}")),
+        Ok(()) => {
+            if seen.len() >= k {
+                mc_core::machinery_error("C19: armed crash point was passed without stopping");
+            }
+            Attempt::Completed(seen.len())
+        }
+    }
+}
+
+/// The experiment on a fresh directory, exactly as the design states it (used to confirm findings and by replay).
+fn fresh_experiment(ctx: &Ctx, case: &Case, k: usize) -> Result<&'static str, (String, String)> {
+    let mut s = Session::new(ctx, case.pruning);
+    let mut pre_model = RefDb::default();
+    for c in &case.prefix {
+        s.commit(c);
+        pre_model.apply(c);
+    }
+    let mut post_model = pre_model.clone();
+    post_model.apply(&case.victim);
+    let v = s.store().get_current_version();
+    if let Attempt::Completed(n) = attempt_commit(s.store.as_mut().unwrap(), &case.victim.to_database_updates(), k) {
+        // on a fresh directory this commit has fewer writes (e.g. no stale root to prune): nothing to stop
+        let _ = n;
+        return Ok("post-commit-state");
+    }
+    s.store = None;
+    OPENS.fetch_add(1, Ordering::Relaxed);
+    let reopened = RocksDBWithMerkleTreeSubstateStore::standard(s.dir.0.clone());
+    judge(&reopened, &(v, pre_model), &(v + 1, post_model))
 }
 
 struct CaseResult {
     local: Local,
     writes: usize,
     nontrivial: u64,
+    pending: Vec<Pending>,
 }
 
-fn run_case(ctx: &Ctx, case: &Case) -> CaseResult {
+/// A finding made on a chained directory, not yet re-run on a fresh one.
+struct Pending {
+    key: String,
+    what: String,
+    k: usize,
+    writes: usize,
+    label: &'static str,
+    /// whole session so far (kept for the first finding of each key in a session only)
+    session: Option<Vec<Value>>,
+}
+
+fn run_case(ctx: &Ctx, sess: &mut Session, case: &Case, keys_seen: &mut Vec<String>) -> CaseResult {
     let mut local = Local::new();
+    let mut pending = vec![];
     let mut pre_model = RefDb::default();
     for c in &case.prefix {
         pre_model.apply(c);
     }
     let mut post_model = pre_model.clone();
     post_model.apply(&case.victim);
-    let pre = (case.prefix.len() as u64, pre_model);
-    let post = (case.prefix.len() as u64 + 1, post_model);
     let du = case.victim.to_database_updates();
-
-    // un-faulted run: count the physical writes and check the post state
-    let labels: Vec<&'static str> = {
-        let (mut store, guard) = build(ctx, case);
-        store.commit(&du);
-        let labels = verif_hooks::take_seen();
-        drop(store);
-        let store = RocksDBWithMerkleTreeSubstateStore::standard(guard.0.clone());
-        local.eval();
-        match judge(&store, &pre, &post) {
-            Ok("post-commit-state") => local.class("unfaulted:post-commit-state"),
-            Ok(_) => local.violation("unfaulted-commit-not-applied", "a completed commit left the pre-commit state", case.to_json(None)),
-            Err((k, w)) => local.violation(format!("unfaulted:{k}"), w, case.to_json(None)),
-        }
-        labels
-    };
-    let w = labels.len();
-    if w == 0 {
-        mc_core::machinery_error("C19: the crash-point hook saw no physical write in a commit (hook not compiled in?)");
+    if sess.pruning != case.pruning {
+        *sess = Session::new(ctx, case.pruning);
     }
+
+    // k = 1, 2, 3, ...: stop before the k-th physical write, until a run performs fewer than k writes and
+    // completes; that run is the un-faulted one and tells the number of writes W.
     let mut nontrivial = 0;
-    for k in 1..=w {
-        let (mut store, guard) = build(ctx, case);
-        verif_hooks::arm(k as u64);
-        let r = mc_core::catch(|| store.commit(&du));
-        verif_hooks::disarm();
-        let seen = verif_hooks::take_seen();
-        match r {
-            Err(p) if p.starts_with(verif_hooks::CRASH_MARKER) => {}
-            Err(p) => mc_core::machinery_error(&format!("C19: commit panicked for another reason than the crash point: {p}")),
-            Ok(()) => mc_core::machinery_error("C19: armed crash point was not reached (write sequence not deterministic)"),
+    let mut k = 0usize;
+    let w;
+    loop {
+        k += 1;
+        if k > 500 {
+            mc_core::machinery_error("C19: a commit with more than 500 physical writes?");
         }
-        if seen.len() != k || seen[..] != labels[..k] {
-            mc_core::machinery_error("C19: write sequence differs between the counting run and the faulted run");
-        }
-        drop(store); // the process is gone; RocksDB keeps what was written so far
-        let store = RocksDBWithMerkleTreeSubstateStore::standard(guard.0.clone());
+        sess.position(&case.prefix, &pre_model);
+        let v = sess.store().get_current_version();
+        let pre = (v, pre_model.clone());
+        let post = (v + 1, post_model.clone());
+        let label = match attempt_commit(sess.store.as_mut().unwrap(), &du, k) {
+            Attempt::Stopped(label) => label,
+            Attempt::Completed(n) => {
+                w = n;
+                sess.model = post.1.clone();
+                sess.trace.push(json!({"commit": case.victim.to_json()}));
+                local.eval();
+                match judge(sess.store(), &pre, &post) {
+                    Ok("post-commit-state") => local.class("unfaulted:post-commit-state"),
+                    Ok(_) => local.violation("unfaulted-commit-not-applied", "a completed commit left the pre-commit state", case.to_json(None)),
+                    Err((key, what)) => local.violation(format!("unfaulted:{key}"), what, case.to_json(None)),
+                }
+                if n == 0 {
+                    mc_core::machinery_error("C19: the crash-point hook saw no physical write in a commit (hook not compiled in?)");
+                }
+                break;
+            }
+        };
+        sess.trace.push(json!({"commit_stopped_before_write": k, "write_label": label, "commit": case.victim.to_json()}));
         local.eval();
         if pre.1 != post.1 {
             nontrivial += 1;
         }
-        let label = labels[k - 1];
-        match judge(&store, &pre, &post) {
+        // The process is gone; RocksDB keeps what was written so far. The store object holds nothing but
+        // the RocksDB handle, so what the surviving handle reads is what a reopened store reads.
+        let mut verdict = judge(sess.store(), &pre, &post);
+        if case.real_reopen {
+            sess.reopen();
+            let reopened = judge(sess.store(), &pre, &post);
+            REOPENED.fetch_add(1, Ordering::Relaxed);
+            let same = match (&verdict, &reopened) {
+                (Ok(a), Ok(b)) => a == b,
+                (Err(a), Err(b)) => a.0 == b.0,
+                _ => false,
+            };
+            if !same {
+                local.info("judgement-through-surviving-handle-differs-from-reopened-store");
+            }
+            verdict = reopened; // the statement speaks of the reopened store
+        }
+        match verdict {
             Ok(c) => {
                 local.class(&format!("{c}@stop-before:{label}"));
-                if k == 2 || k == w {
-                    local.sample(|| json!({"case": case.to_json(Some((k as u64, label))), "recovered": c, "writes_in_commit": w}));
+                sess.model = if c == "post-commit-state" { post.1.clone() } else { pre.1.clone() };
+                if k <= 2 {
+                    local.sample(|| json!({"case": case.to_json(Some((k as u64, label))), "recovered": c}));
                 }
             }
             Err((key, what)) => {
                 local.class(&format!("VIOLATION:{key}@stop-before:{label}"));
-                local.violation(format!("{key}:stop-before={label}"), format!("stopped before write {k} of {w} ({label}): {what}"), case.to_json(Some((k as u64, label))));
+                let full_key = format!("{key}:stop-before={label}");
+                let first_in_session = !keys_seen.contains(&full_key);
+                if first_in_session {
+                    keys_seen.push(full_key.clone());
+                }
+                pending.push(Pending { key: full_key, what, k, writes: 0, label, session: if first_in_session { Some(sess.trace.clone()) } else { None } });
+                // the directory is inconsistent now: repair it through the API, or continue on a new one
+                if !sess.repair() {
+                    SESSIONS_DISCARDED.fetch_add(1, Ordering::Relaxed);
+                    *sess = Session::new(ctx, case.pruning);
+                }
             }
         }
-        drop(store);
-        drop(guard);
     }
-    CaseResult { local, writes: w, nontrivial }
+    for p in pending.iter_mut() {
+        p.writes = w;
+    }
+    CaseResult { local, writes: w, nontrivial, pending }
 }
 
-fn cases(prefix_len: usize) -> Vec<Case> {
+fn cases(prefix_len: usize, reopen_upto: usize) -> Vec<Case> {
     let b = batches();
     let mut prefixes: Vec<Vec<Commit>> = vec![vec![]];
     let mut layer: Vec<Vec<Commit>> = vec![vec![]];
@@ -253,7 +423,7 @@ fn cases(prefix_len: usize) -> Vec<Case> {
     for p in &prefixes {
         for v in &b {
             for pruning in [true, false] {
-                out.push(Case { pruning, prefix: p.clone(), victim: v.clone() });
+                out.push(Case { pruning, prefix: p.clone(), victim: v.clone(), real_reopen: p.len() <= reopen_upto });
             }
         }
     }
@@ -266,20 +436,40 @@ pub fn run(ctx: Ctx) -> ! {
         replay(ctx, case);
     }
     let prefix_len = ctx.pick(2, 3);
-    let all = cases(prefix_len);
+    let reopen_upto = ctx.pick(0, 1);
+    let all = cases(prefix_len, reopen_upto);
     let wall_cap = ctx.pick(50.0, 1100.0);
     let stopped = std::sync::atomic::AtomicBool::new(false);
-    let results: Vec<Option<CaseResult>> = par_map(ctx.threads, &all, |case| {
-        if ctx.elapsed_s() > wall_cap {
-            stopped.store(true, Ordering::Relaxed);
-            return None;
+    // fixed round-robin distribution (independent of the thread count): one session per slot, cases in order
+    const SLOTS: usize = 16;
+    let slots: Vec<Vec<usize>> = (0..SLOTS).map(|s| (s..all.len()).step_by(SLOTS).collect()).collect();
+    let slot_results: Vec<Vec<(usize, Option<CaseResult>)>> = par_map(ctx.threads, &slots, |idxs| {
+        let mut out = vec![];
+        if idxs.is_empty() {
+            return out;
         }
-        Some(run_case(&ctx, case))
+        let mut sess = Session::new(&ctx, all[idxs[0]].pruning);
+        let mut confirmed = vec![];
+        for &i in idxs.iter() {
+            if ctx.elapsed_s() > wall_cap {
+                stopped.store(true, Ordering::Relaxed);
+                out.push((i, None));
+                continue;
+            }
+            out.push((i, Some(run_case(&ctx, &mut sess, &all[i], &mut confirmed))));
+        }
+        out
     });
+    let mut indexed: Vec<(usize, Option<CaseResult>)> = slot_results.into_iter().flatten().collect();
+    indexed.sort_by_key(|x| x.0);
+    let results: Vec<Option<CaseResult>> = indexed.into_iter().map(|x| x.1).collect();
     let mut hist: BTreeMap<usize, u64> = BTreeMap::new();
     let mut nontrivial = 0;
     let mut done = 0u64;
     let mut first_skipped = None;
+    // first finding per key in case order (shortest history, simplest victim, earliest write first)
+    let mut first_by_key: BTreeMap<String, (usize, Pending)> = BTreeMap::new();
+    let mut findings = 0u64;
     for (i, r) in results.into_iter().enumerate() {
         match r {
             Some(r) => {
@@ -287,12 +477,29 @@ pub fn run(ctx: Ctx) -> ! {
                 nontrivial += r.nontrivial;
                 done += 1;
                 ctx.merge(r.local);
+                for p in r.pending {
+                    findings += 1;
+                    first_by_key.entry(p.key.clone()).or_insert((i, p));
+                }
             }
             None => {
                 if first_skipped.is_none() {
                     first_skipped = Some(i);
                 }
             }
+        }
+    }
+    // Re-run each distinct finding on a fresh directory with a real close + reopen: that is the replay case.
+    for (key, (i, p)) in first_by_key {
+        let case = &all[i];
+        let head = format!("stopped before write {} ({})", p.k, p.label);
+        match fresh_experiment(&ctx, case, p.k) {
+            Err((key2, what2)) => ctx.violation(format!("{key2}:stop-before={}", p.label), format!("{head}: {what2}"), case.to_json(Some((p.k as u64, p.label)))),
+            Ok(_) => ctx.violation(
+                format!("{key}:only-after-longer-history"),
+                format!("{head}: {} (not reproduced on a fresh directory; the case carries the whole session)", p.what),
+                json!({"pruning": case.pruning, "session": p.session.unwrap_or_default()}),
+            ),
         }
     }
     let exhaustive = !stopped.load(Ordering::Relaxed);
@@ -304,6 +511,11 @@ pub fn run(ctx: Ctx) -> ! {
     if let Some(i) = first_skipped {
         cov.insert("first_history_skipped_by_wall_cap".into(), json!(i));
     }
+    cov.insert("stops_followed_by_real_close_and_reopen".into(), json!(REOPENED.load(Ordering::Relaxed)));
+    cov.insert("real_reopen_for_histories_with_committed_batches_upto".into(), json!(reopen_upto));
+    cov.insert("findings_before_dedup_by_key".into(), json!(findings));
+    cov.insert("store_opens".into(), json!(OPENS.load(Ordering::Relaxed)));
+    cov.insert("directories_discarded_after_findings".into(), json!(SESSIONS_DISCARDED.load(Ordering::Relaxed)));
     cov.insert("fault_points_per_history".into(), json!(hist.iter().map(|(k, v)| (k.to_string(), *v)).collect::<BTreeMap<_, _>>()));
     ctx.finish(
         Level::FaultEnumeration,
@@ -313,7 +525,8 @@ pub fn run(ctx: Ctx) -> ! {
         cov,
         &[
             "RocksDB writes of one process are totally ordered through its WAL; a process stop or power loss yields a prefix of that order. Every prefix of the commit's own write sequence is enumerated; torn writes inside one RocksDB write are RocksDB's responsibility",
-            "the stop is modelled by a panic at the crash point, unwinding out of commit, dropping the store handle and reopening the directory",
+            "the stop is modelled by a panic at the crash point unwinding out of commit; the store object holds no state besides its RocksDB handle, so every stop is judged through the surviving handle, and for the histories listed under real_reopen (and for every finding) the handle is really dropped and the directory reopened, the reopened judgement being the one that counts",
+            "experiments are chained on long-lived directories (the pre-commit state is reached by wiping with resets and re-committing the prefix, after earlier interrupted commits on the same directory); every finding is re-run on a fresh directory and reported from there if it reproduces",
             "blake2b-256 is shared between the reference commitment and the tree; keys have equal length per tier",
         ],
     )
@@ -326,14 +539,19 @@ fn replay(ctx: Ctx, case: Value) -> ! {
         pruning: inner.get("pruning").and_then(|b| b.as_bool()).unwrap_or(true),
         prefix: parse_list(inner.get("prefix")),
         victim: inner.get("victim").and_then(Commit::from_json).unwrap_or_else(|| mc_core::machinery_error("replay case has no victim")),
+        real_reopen: true,
     };
-    let r = run_case(&ctx, &c);
+    let mut sess = Session::new(&ctx, c.pruning);
+    let mut confirmed = vec![];
+    let r = run_case(&ctx, &mut sess, &c, &mut confirmed);
+    drop(sess);
     println!("writes in the victim commit: {}", r.writes);
     for (k, n) in &r.local.classes {
         println!("  {k}: {n}");
     }
-    for v in &r.local.violations {
-        println!("  VIOLATION {}: {}", v.key, v.what);
+    for p in &r.pending {
+        println!("  VIOLATION {}: stopped before write {} of {} ({}): {}", p.key, p.k, p.writes, p.label, p.what);
+        ctx.violation(p.key.clone(), p.what.clone(), case.clone());
     }
     ctx.merge(r.local);
     ctx.finish(Level::FaultEnumeration, "replay", 0, false, Map::new(), &[])
